@@ -55,7 +55,7 @@ Fixpoint run_acts (n : nat) (path : Z) (c : curve float) (l : list Z) : list Z :
   | S k =>
     match l with
     | 0 :: x :: r => out_num (interpolated_value c x) ++ run_acts k path c r
-    | 1 :: x :: r => (if path =? 0 then out_nat (node_index c x) else [-1]) ++ run_acts k path c r
+    | 1 :: x :: r => (if (path =? 0) || (path =? 2) then out_nat (node_index c x) else [-1]) ++ run_acts k path c r
     | 2 :: o :: r => 0 :: run_acts k path (set_ad_order c (mk_ad o)) r
     | 3 :: r => 0 :: ad_int (curve_ad c) :: run_acts k path c r
     | 4 :: r =>
@@ -94,7 +94,9 @@ Definition run_curve (l : list Z) : list Z :=
       let ob := if hasbase =? 0 then None else Some (float_of_bits base) in
       let '(raw, r) := rd_many rd_node (Z.to_nat n) r in
       let im := im_from_iter Z.eqb raw in                    (* IndexMap::from_iter on datetime keys *)
-      let oc := if path =? 0 then option_map (fun nd => curve_try_new nd (mk_rule rl) id ob) (nodes_of_kind ad im)
+      (* path 2 = path 0 followed by to_json / from_json with the node entries of the document in supply order: the
+         loader sorts the keys again (Model/Json.v dec_nodes), so the curve is the same *)
+      let oc := if (path =? 0) || (path =? 2) then option_map (fun nd => curve_try_new nd (mk_rule rl) id ob) (nodes_of_kind ad im)
                 else Some (curve_new_py im (mk_rule rl) (mk_ad ad) id ob) in
       match oc, r with
       | Some c, nact :: r => 0 :: run_acts (Z.to_nat nact) path c r
